@@ -307,9 +307,11 @@ def st_case(draw: st.DrawFn, tier: str) -> dict:
     terminated = draw(st.booleans())
     near = st.integers(-2 * seplen - 3, 2 * seplen + 3).map(lambda d: max(0, limit + d))
     if terminated:
-        length = draw(st.one_of(near, near, st.integers(0, limit + seplen + rcap + 2)))
+        length = draw(st.one_of(near, near, st.integers(0, limit + seplen + rcap + 2), st.integers(limit + seplen + 1, limit + seplen + rcap + 2)))
     else:
         length = draw(st.one_of(near, st.integers(max(0, limit - 2), limit + seplen + 2 * rcap + 4)))
+    if kind_of(spec) == "hfile" and terminated:
+        length = min(length, 65537)  # zoo.HFile records carry a 2-byte length
     case = {
         "spec": spec,
         "length": length,
@@ -416,7 +418,7 @@ def enum_cases(tier: str) -> Iterator[dict]:
                             }
                             if shape:
                                 case["shape"] = shape
-                            if mode == "all" and len(build_plan(case)["stream"]) > ALL_PARTITIONS_MAX:
+                            if mode == "all" and len(build_plan(case)["stream"]) > (11 if tier == "quick" else ALL_PARTITIONS_MAX):
                                 case["mode"] = "sparse"
                             yield case
 
@@ -475,6 +477,6 @@ CHECK = Check(
         "without an earlier / following frame, for separator lengths 1, 2, 3 (AutoSeparated, line, Base64, JSON lines), raw JSON "
         "(array, string, plain) and the file-based harness serializer; limits 4-8 with ALL 2^(n-1) partitions of streams up to 14 "
         "bytes on both receive paths, limits 9-24 (and longer streams) with every uniform read size, every single cut and every pair "
-        "of cuts within seplen+2 of the limit offset. The quick tier enumerates limits 4 and 9 for four serializers only."
+        "of cuts within seplen+2 of the limit offset. The quick tier enumerates limits 4 and 9 for four serializers only, all partitions up to 11 bytes."
     ),
 )
